@@ -13,7 +13,7 @@ RULE = (
     "one level deep over the same alphabet, against a reference interpreter written from the statement (observed: which algos were called, in which order, truthiness of the result); "
     "Require over item in {absent, None, falsy, truthy} x predicate x if_none. tree (generated, Hypothesis recursive): stacks/Or/Not nested to depth 4. run (generated): Strategy.run through "
     "real backtests of generated strategy trees with spy algos that survive deepcopy: temp empty at entry of every run, perm preserved, own stack before children, each child exactly "
-    "once per run. oob (generated): RunIfOutOfBounds on generated held portfolios vs targets/tolerance, with and without temp['cash']. non-trivial = a stack with a False before a "
+    "once per run. hand_run (generated): 2-3 strategies built by the constructor and run as constructed (no Backtest copy), interleaved in a generated order, optionally with a sub-strategy created with parent= on a later date: temp empty and perm == what the same object's previous run left, at the start of every run. oob (generated): RunIfOutOfBounds on generated held portfolios vs targets/tolerance, with and without temp['cash']. non-trivial = a stack with a False before a "
     "run_always algo / a nested tree / an out-of-bounds child. distinct = distinct cases (enumerated cases are distinct by construction)."
 )
 ASSUMPTIONS = ["algos return real bools", "with temp['cash'] RunIfOutOfBounds must not raise, is True when a security is out of bounds and False when everything incl. cash is exactly on target (no claim in between)"]
@@ -386,6 +386,78 @@ def case_run(ctx, spec):
     return {"nontrivial": len(names) > 1, "labels": ["nodes=%d" % min(len(names), 5)]}
 
 
+# ---- strategies run as constructed (no Backtest copy in between): perm belongs to each strategy object ----------------
+@st.composite
+def hand_run_spec(draw):
+    ds = draw(gen.dates(3, 6, kinds=("bday", "daily")))
+    n = len(ds)
+    k = draw(st.integers(2, 3))
+    order = [draw(st.permutations(list(range(k)))) for _ in range(n)]
+    skip = [[draw(st.integers(0, 4)) == 0 for _ in range(k)] for _ in range(n)]
+    late = None
+    if draw(st.booleans()):
+        # a sub-strategy created inside a live strategy on a later date (the repository's dynamic-strategy pattern)
+        late = {"parent": draw(st.integers(0, k - 1)), "date": draw(st.integers(1, n - 1))}
+    return {"dates": ds, "k": k, "order": [list(o) for o in order], "skip": skip, "late": late}
+
+
+def case_hand_run(ctx, spec):
+    """on every run a strategy starts with empty temp and finds in perm exactly what its own previous run left there - whatever other
+    strategies (built by the same constructor, run in between) do with theirs"""
+    import pandas as pd
+
+    bt = ctx.bt
+    ds = spec["dates"]
+    idx = interp.mk_dates(ds)
+    data = pd.DataFrame({"a": [100.0 + i for i in range(len(ds))], "b": [50.0 - i for i in range(len(ds))]}, index=idx)
+    last_end = {}
+    runs = {}
+    names = {}
+
+    def probe(target):
+        key = id(target)
+        start = dict(target.perm)
+        if target.temp:
+            raise Violation("temp of %s not empty at the start of a run: %s" % (names.get(key, target.name), sorted(target.temp)), signature="hand:temp")
+        exp = last_end.get(key, {})
+        if start != exp:
+            raise Violation(
+                "perm of %s at the start of its run #%d is %s, expected %s (what its own previous run left; other strategies run in between: %s)" % (names.get(key, target.name), runs.get(key, 0) + 1, start, exp, sorted(set(names.values()) - {names.get(key)})),
+                signature="hand:perm",
+            )
+        runs[key] = runs.get(key, 0) + 1
+        target.perm["runs"] = runs[key]
+        target.perm["owner"] = names.get(key, target.name)
+        target.temp["seen"] = True
+        last_end[key] = dict(target.perm)
+        return True
+
+    strats = []
+    for i in range(spec["k"]):
+        s_ = bt.core.Strategy("s%d" % i, [probe])
+        s_.setup(data)
+        s_.adjust(1000.0)
+        names[id(s_)] = s_.name
+        strats.append(s_)
+    lates = []
+    for j, d in enumerate(idx):
+        for s_ in strats:
+            s_.update(d)
+        if spec["late"] and spec["late"]["date"] == j:
+            par = strats[spec["late"]["parent"]]
+            new = bt.core.Strategy("late", [probe], parent=par)
+            new.setup_from_parent()
+            new.update(par.now)
+            names[id(new)] = par.name + ">late"
+            lates.append(new)
+        for pos in spec["order"][j]:
+            if spec["skip"][j][pos]:
+                continue
+            strats[pos].run()
+    total = sum(runs.values())
+    return {"nontrivial": total >= 3 and len([v for v in runs.values() if v >= 2]) >= 2, "labels": ["k=%d" % spec["k"]] + (["late_substrategy"] if lates else [])}
+
+
 # ---- RunIfOutOfBounds ---------------------------------------------------------------------------------
 @st.composite
 def oob_spec(draw):
@@ -468,11 +540,12 @@ def case_oob(ctx, spec):
     return {"nontrivial": sec_oob, "labels": labs}
 
 
-SUBS = {"stackspec": case_stackspec, "require": case_require, "tree": case_tree, "run": case_run, "oob": case_oob}
-STRATS = {"tree": lambda: tree_items().map(lambda x: {"items": x}), "run": run_spec, "oob": oob_spec}
+SUBS = {"stackspec": case_stackspec, "require": case_require, "tree": case_tree, "run": case_run, "oob": case_oob, "hand_run": case_hand_run}
+STRATS = {"tree": lambda: tree_items().map(lambda x: {"items": x}), "run": run_spec, "oob": oob_spec, "hand_run": hand_run_spec}
 
 
 def shard(ctx):
     run_sub(ctx, "tree", tree_items().map(lambda x: {"items": x}), lambda s: case_tree(ctx, s), ctx.n(3000, 80000))
     run_sub(ctx, "run", run_spec(), lambda s: case_run(ctx, s), ctx.n(320, 6000))
     run_sub(ctx, "oob", oob_spec(), lambda s: case_oob(ctx, s), ctx.n(1600, 30000))
+    run_sub(ctx, "hand_run", hand_run_spec(), lambda s: case_hand_run(ctx, s), ctx.n(800, 12000))
